@@ -5,7 +5,7 @@ from specs.common import run, ASSUME_COMMON
 # (not part of -fsanitize=undefined in gcc); the harness object is linked before libotel.a, so the
 # sampler that runs is this instrumented copy of the current tree's source.
 SPEC = {
-    "runs": [run("e1-statement", "c12_sampling", "asan", 2500, 40000, need_lib=True,
+    "runs": [run("e1-statement", "c12_sampling", "asan", 2500, 150000, need_lib=True,
                  sources=["harness/c12_sampling.cc", build.REPO + "/sdk/src/trace/samplers/trace_id_ratio.cc"],
                  cxxflags=["-fsanitize=float-cast-overflow"])],
     "floors": {
@@ -13,8 +13,9 @@ SPEC = {
                   "id_splits_a_pair_within_4ulp": 100, "checks_ratio_le0": 10000, "checks_ratio_ge1": 10000,
                   "parent_valid_sampled": 3000, "parent_valid_unsampled": 3000, "parent_valid_remote": 3000,
                   "parent_valid_local": 3000, "parent_invalid": 3000, "parent_flag_byte_sweeps": 30,
-                  "tracer_root_sampled": 1000, "tracer_root_dropped": 1000, "tracer_child_spans": 300},
-        "thorough": {"pairs_within_4ulp": 40000, "ids_near_threshold": 400000, "id_splits_a_ratio_pair": 400000,
+                  "tracer_root_sampled": 1000, "tracer_root_dropped": 1000, "tracer_child_spans": 300,
+                  "tracer_root_ids_as_supplied": 3000},
+        "thorough": {"pairs_within_4ulp": 60000, "ids_near_threshold": 400000, "id_splits_a_ratio_pair": 400000,
                      "id_splits_a_pair_within_4ulp": 4000, "checks_ratio_le0": 400000, "checks_ratio_ge1": 400000,
                      "parent_valid_sampled": 100000, "parent_valid_unsampled": 100000, "parent_invalid": 100000,
                      "parent_flag_byte_sweeps": 1000, "tracer_root_sampled": 40000, "tracer_root_dropped": 40000},
@@ -47,6 +48,6 @@ SPEC = {
         "NaN ratios are excluded (the statement gives no meaning to them); they are generated, counted (nan_ratios_excluded) and skipped",
         "'sampled' means Decision::RECORD_AND_SAMPLE; RECORD_ONLY counts as not sampled",
         "for a valid parent the result must carry a non-null trace state whose header equals the parent's",
-        "for a span without a valid parent the result must be the root sampler's: same decision (and, for scripted delegates, the very trace state object), root sampler asked exactly once about the same trace id",
+        "for a span without a valid parent the result must be the root sampler's: the decision the delegate returned in that one call, and the decision an independent twin of a real delegate (ratio / always-on / always-off) gives for the same trace id; pass-through of the delegate's trace state and attributes is not judged",
     ],
 }
